@@ -8,6 +8,12 @@
 (* have died.  A re-ordering of the calls that opens a window in which the  *)
 (* last or best checkpoint is not loadable is rejected even though no crash *)
 (* was injected there; a harmless re-ordering is accepted.                  *)
+(*                                                                         *)
+(* A checkpoint's content is the epoch whose state it holds and, for the    *)
+(* optimizer, the learning rate it carries (number of reductions).  What    *)
+(* the optimizer state of epoch e has to carry is the rate TrainCtl         *)
+(* (instantiated with the run's parameters T.p) records for e; with         *)
+(* T.best_is_train "best" goes by the training metric.                      *)
 (***************************************************************************)
 EXTENDS Naturals, Integers, Sequences, FiniteSets, TLC, Json, IOUtils, TLCExt
 
@@ -16,8 +22,8 @@ INF == 1000
 
 VARIABLES i,      \* which recorded run
           pos,    \* events consumed
-          hist,   \* history file (validation metrics)
-          fs,     \* <<kind, epoch>> -> content
+          hist,   \* history file: [v |-> validation metric, t |-> training metric] per row
+          fs,     \* <<kind, epoch>> -> [e |-> epoch whose state it holds, k |-> rate it carries]
           tmps    \* tmp id -> content
 vars == <<i, pos, hist, fs, tmps>>
 
@@ -25,22 +31,30 @@ T == Traces[i]
 Ev == T.events[pos + 1]
 Put(f, n, c) == [x \in DOMAIN f \cup {n} |-> IF x = n THEN c ELSE f[x]]
 Drop(f, n) == [x \in DOMAIN f \ {n} |-> f[x]]
-ValAt(h, e) == IF e = 0 THEN INF ELSE h[e]
+ValAt(h, e) == IF e = 0 THEN INF ELSE IF T.best_is_train THEN h[e].t ELSE h[e].v
 Best(h) == CHOOSE b \in 0..Len(h) : /\ \A e \in 0..Len(h) : ValAt(h, b) <= ValAt(h, e)
                                     /\ \A e \in 0..Len(h) : ValAt(h, e) = ValAt(h, b) => b <= e
 Nm(kind, e) == <<kind, e>>
-Loadable(e) == /\ Nm("m", e) \in DOMAIN fs /\ fs[Nm("m", e)] = e
-               /\ Nm("o", e) \in DOMAIN fs /\ fs[Nm("o", e)] = e
+\* TrainCtl's decisions for this run's parameters: the rate recorded for epoch e of the history h
+TC(h) == INSTANCE TrainCtl WITH p <- T.p, ParamSpace <- {}, Levels <- {}, MaxLen <- 0, hist <- h,
+                                cache <- <<>>, conts <- <<>>, optlr <- 0, ckpt <- <<>>, decl <- <<>>, fresh <- FALSE
+RowsFor(h) == LET f[n \in 0..Len(h)] == IF n = 0 THEN <<>>
+                                        ELSE Append(f[n - 1], TC(f[n - 1])!Update(TC(f[n - 1])!FromHist(f[n - 1]), h[n].v))
+              IN f[Len(h)]
+LrkOf(e) == RowsFor(hist)[e].lrk
+Nothing == [e |-> 0, k |-> 0]
+Loadable(e) == /\ Nm("m", e) \in DOMAIN fs /\ fs[Nm("m", e)].e = e
+               /\ Nm("o", e) \in DOMAIN fs /\ fs[Nm("o", e)] = [e |-> e, k |-> LrkOf(e)]
 
 Init == /\ i \in 1..Len(Traces) /\ pos = 0 /\ hist = <<>> /\ fs = <<>> /\ tmps = <<>>
 
 \* generic primitives
-MkTmp  == Ev.op = "mktemp"  /\ tmps' = Put(tmps, Ev.t, 0) /\ UNCHANGED <<hist, fs>>
-Write  == Ev.op = "write"   /\ Ev.t \in DOMAIN tmps /\ tmps' = Put(tmps, Ev.t, Ev.c) /\ UNCHANGED <<hist, fs>>
+MkTmp  == Ev.op = "mktemp"  /\ tmps' = Put(tmps, Ev.t, Nothing) /\ UNCHANGED <<hist, fs>>
+Write  == Ev.op = "write"   /\ Ev.t \in DOMAIN tmps /\ tmps' = Put(tmps, Ev.t, [e |-> Ev.c, k |-> Ev.k]) /\ UNCHANGED <<hist, fs>>
 Replace == /\ Ev.op = "replace" /\ Ev.t \in DOMAIN tmps
            /\ fs' = Put(fs, Nm(Ev.kind, Ev.e), tmps[Ev.t]) /\ tmps' = Drop(tmps, Ev.t) /\ UNCHANGED hist
 AppendRow == /\ Ev.op = "append" /\ Ev.e = Len(hist) + 1
-             /\ hist' = Append(hist, Ev.v) /\ UNCHANGED <<fs, tmps>>
+             /\ hist' = Append(hist, [v |-> Ev.v, t |-> Ev.tv]) /\ UNCHANGED <<fs, tmps>>
 Remove == /\ Ev.op = "remove" /\ Nm(Ev.kind, Ev.e) \in DOMAIN fs
           /\ fs' = Drop(fs, Nm(Ev.kind, Ev.e)) /\ UNCHANGED <<hist, tmps>>
 Other == Ev.op \in {"makedirs", "begin", "end"} /\ UNCHANGED <<hist, fs, tmps>>
